@@ -77,6 +77,13 @@ def run(facts, res):
         elif n in ("values_mut", "iter_mut"):
             # the loop body may only call the per-entry flag reset
             others = [tt.callee.target() for _, tt in b.calls() if tt.callee is not None and tt.callee.impl_adt == "revisiontree::RevisionTreeEntry"]
+            # `values_mut().for_each(RevisionTreeEntry::commit)`: the per-entry function is passed as a fn item
+            for _, tt in b.calls():
+                if tt.callee is not None and tt.callee.name in ("for_each", "map", "try_for_each") and tt.args:
+                    for i_ in range(len(tt.args)):
+                        for x in walk(arg_term(b, tt, i_, 6)):
+                            if x[0] == "const" and x[1] == "fn" and "RevisionTreeEntry" in x[2]:
+                                others.append(x[2] if x[2].startswith("revisiontree::") else "revisiontree::" + x[2].split("revisiontree::")[-1])
             ok = set(others) <= {"revisiontree::RevisionTreeEntry::commit"} and bool(others)
             ec = facts.body("revisiontree::RevisionTreeEntry::commit")
             if ec is not None:
@@ -213,7 +220,7 @@ def run(facts, res):
             if not any(any(t.path in appliers for t in ss.targets) for cb in s.closures for ss in cg.sites[cb.path]):
                 continue
             recv = arg_term(b, s.term, 0, 30)
-            names = [callee_name(x) for x in walk(recv) if x[0] == "call"]
+            names = [callee_name(x) for x in walk(recv, False) if x[0] == "call"]
             whole = "iter" in names and any(x[0] == "field" and x[2] == "deltas" for x in walk(recv)) and \
                 not (set(names) & {"take", "skip", "filter", "step_by", "take_while", "skip_while", "rev"})
             ready = all(c02.status_guard(cb, ss.block, facts) == "Ready" for cb in s.closures for ss in cg.sites[cb.path]
@@ -232,7 +239,7 @@ def run(facts, res):
         for bi, t in b.calls():
             if t.callee is not None and t.callee.target() == "melda::DeltaId::from":
                 a = arg_term(b, t, 0, 30)
-                names = [callee_name(x) for x in walk(a) if x[0] == "call"]
+                names = [callee_name(x) for x in walk(a, False) if x[0] == "call"]
                 lists = [x for x in walk(a) if x[0] == "call" and callee_name(x) == R.name("lister")]
                 if lists and de in [y[2] for y in walk(lists[0][2][1]) if y[0] == "const" and y[1] == "str"] and \
                         not (set(names) & {"take", "skip", "filter", "step_by", "take_while", "skip_while"}):
@@ -272,7 +279,7 @@ def run(facts, res):
             if s.callee is not None and s.callee.name in ("for_each", "try_for_each") and any(
                     tt.callee is not None and tt.callee.name == R.name("raw_write") for c_ in s.closures for _, tt in c_.calls()):
                 recv = arg_term(m, s.term, 0, 30)
-                names = {callee_name(x) for x in walk(recv) if x[0] == "call"}
+                names = {callee_name(x) for x in walk(recv, False) if x[0] == "call"}
                 if names & (SEL | {"filter", "filter_map"}):
                     res.violation("L5", "meld|source-not-whole:%s" % ",".join(sorted(names & (SEL | {"filter", "filter_map"}))),
                                   "a meld copy loop iterates a selected part of the peer's items (%s)" % sorted(names & (SEL | {"filter", "filter_map"})), s.loc())
@@ -309,7 +316,7 @@ def _revalidates_all(facts, cg, body, site, depth):
     V = "revisiontree::RevisionTree::validate"
     if site.callee is not None and site.callee.name in ("for_each", "try_for_each") and any(cg.reaches(t, V) for t in site.closures):
         recv = arg_term(body, site.term, 0, 30)
-        names = [callee_name(x) for x in walk(recv) if x[0] == "call"]
+        names = [callee_name(x) for x in walk(recv, False) if x[0] == "call"]
         return "values" in names and any(x[0] == "field" and x[2] == "documents" for x in walk(recv)) and \
             not (set(names) & {"take", "skip", "filter", "step_by", "take_while", "skip_while"})
     if depth >= 2 or site.fanout:
